@@ -37,35 +37,47 @@ class C18(Prop):
         self.m = dict(games=games, rank5=five_card_hand_rank, ou=ou, ob=ob, hu=hu, hutch=hi_point_count, ru=ru, ku=ku, cu=cu)
 
     # ---- evaluation of one kind on one input (impl side)
+    def A(self, name, v):
+        """the argument object handed to the library: a fresh list, or -- `reuse` cases -- one long-lived list per argument
+        slot whose content is overwritten in place (a caller that shuffles / edits its own list and evaluates again)"""
+        if not getattr(self, "_reuse", False):
+            return list(v)
+        obj = self.__dict__.setdefault("_hold", {}).setdefault(name, [])
+        obj[:] = v
+        return obj
+
+    def AA(self, name, vs):
+        return [self.A(f"{name}{i}", h) for i, h in enumerate(vs)]
+
     def ev(self, kind, x):
         m = self.m
         if kind == "rank5":
-            return list(m["rank5"](list(x["hand"])))
+            return list(m["rank5"](self.A("hand", x["hand"])))
         if kind == "omaha":
-            return [list(m["ou"].get_hand_strength_fast(list(x["board"]), list(x["hand"]))),
-                    list(m["ob"].brute_force_omaha_hi_rank(list(x["board"]), list(x["hand"])))]
+            return [list(m["ou"].get_hand_strength_fast(self.A("board", x["board"]), self.A("hand", x["hand"]))),
+                    list(m["ob"].brute_force_omaha_hi_rank(self.A("board", x["board"]), self.A("hand", x["hand"])))]
         if kind == "holdem":
-            return list(m["hu"].get_hand_strength_fast(list(x["board"]), list(x["hand"])))
+            return list(m["hu"].get_hand_strength_fast(self.A("board", x["board"]), self.A("hand", x["hand"])))
         if kind == "tiers":
             f = m["ou"].get_best_hands_fast if x["game"] == "PLO" else m["hu"].get_best_hands_fast
-            return [sorted(t) for t in f(list(x["board"]), [list(h) for h in x["hands"]])]
+            return [sorted(t) for t in f(self.A("board", x["board"]), self.AA("hands", x["hands"]))]
         if kind == "hutch":
-            return m["hutch"](list(x["hand"]))
+            return m["hutch"](self.A("hand", x["hand"]))
         if kind == "split":
-            return m["ru"].split_melds(list(x["hand"]))[0]
+            return m["ru"].split_melds(self.A("hand", x["hand"]))[0]
         if kind == "layoff":
-            return [m["ru"].layoff_deadwood(list(x["hand"]), [list(o) for o in x["opp"]], stop_on_zero=s)[0] for s in (True, False)]
+            return [m["ru"].layoff_deadwood(self.A("hand", x["hand"]), self.AA("opp", x["opp"]), stop_on_zero=s)[0] for s in (True, False)]
         if kind == "ricky":
-            return m["ku"].hand_points(list(x["hand"]))
+            return m["ku"].hand_points(self.A("hand", x["hand"]))
         if kind == "canon":
-            h, mp = m["games"].canonize_hand(list(x["hand"]))
+            h, mp = m["games"].canonize_hand(self.A("hand", x["hand"]))
             h2, _ = m["games"].canonize_hand(list(h))
             return {"hand": list(h), "map": sorted(mp.items()), "again": list(h2)}
         if kind == "equity":
             fake = FakeRandom(x["samp"][0], x["samp"][1])
             m["cu"].random = fake
             f = m["ou"].sim_omaha_all_in_equity if x["game"] == "PLO" else m["hu"].sim_holdem_all_in_equity
-            sh = f(board=list(x["board"]), hands=[list(h) for h in x["hands"]], deck=list(x["deck"]), n=x["n"])
+            sh = f(board=self.A("board", x["board"]), hands=self.AA("hands", x["hands"]), deck=self.A("deck", x["deck"]), n=x["n"])
             return [sh[p] for p in range(len(x["hands"]))]
         raise RuntimeError(kind)
 
@@ -138,10 +150,12 @@ class C18(Prop):
             kind = rng.choice(KINDS)
             x = self.gen_input(rng, kind)
             ss = sigmas if (tier == "thorough" and rng.random() < 0.2) else rng.sample(sigmas, 3)
-            yield {"kind": kind, "x": x, "sigmas": ["".join(s) for s in ss], "pseed": rng.randrange(1 << 30)}
+            yield {"kind": kind, "x": x, "sigmas": ["".join(s) for s in ss], "pseed": rng.randrange(1 << 30),
+                   "reuse": rng.random() < 0.4}
 
     def impl(self, case):
         kind, x = case["kind"], case["x"]
+        self._reuse = bool(case.get("reuse"))
         out = {"images": []}
         try:
             out["base"] = self.ev(kind, x)
@@ -297,10 +311,17 @@ class C20(Prop):
     def impl(self, case):
         d = self.perm_of(case)
 
+        idx = [DECK.index(c) for c in d]     # the permutation, by position: what a real shuffle does to whatever it is given
+
         class Fake:
             def shuffle(_, l):
                 assert sorted(l) == sorted(DECK), "the list handed to shuffle is not a fresh copy of the 52-card deck"
-                l[:] = d
+                l[:] = [l[i] for i in idx]
+
+            def __getattr__(_, name):
+                if name.startswith("__"):
+                    raise AttributeError(name)
+                return getattr(random.Random(case.get("pseed", 0)), name)
         self.du.random = Fake()
         out = {}
         try:
